@@ -152,7 +152,9 @@ func (s *dgramSession) exchange(c *cell) (o observation) {
 		}
 
 		o.hrec = &rec
-		if rec.WriteErr != "" {
+		if rec.WriteErr != "" && !c.sh.Propagate {
+			// The kernel refused the datagram and the handler swallowed the
+			// error: nothing is to come.
 			o.outcome = "no-response: server-side write error: " + classifyWriteErr(rec.WriteErr)
 
 			return o
